@@ -994,6 +994,22 @@ func c12Static(r *hx.Run) {
 		r.Violate(hx.Violation{Class: "dead-verdict-without-a-reason", Input: cs, Observed: lfShowSrc(s0), Expected: "a dead code report says why"})
 	}
 	r.Op("lfstatic\t"+string(b), fmt.Sprintf("%v %v %s %v %v", s0.AlwaysReturns, s0.KnownReturn, num, s0.IsDead, s0.IsConditional))
+	// the `or` rule: is the right-hand side of `e or on() m9` declared unused? (model: orRhsDead; theorem or_on_rhs_unused)
+	if onode, err := promParser.ParseExpr("(" + e.text + " or on() m9)"); err == nil {
+		if osrcs, ocrashed := lfLabelsSource(r, lfCase{Expr: "(" + e.text + " or on() m9)", Full: true}, onode); !ocrashed && len(osrcs) == 2 {
+			unused := osrcs[1].IsDead && strings.Contains(osrcs[1].IsDeadReason, "right hand side is never used")
+			r.Op("lforrhs\t"+string(b), fmt.Sprint(unused))
+			if unused && e.closed && seNoVV(e.json) && !strings.Contains(e.text, " bool ") {
+				// observed on the engine: with the right side declared unused, dropping it changes nothing
+				a1, v1, err1 := promeval.Instant(lfBuild([]map[string]string{{"__name__": "m9", "a": "x", "b": "x", "c": "x"}}, ""), "("+e.text+" or on() m9)", lfT0)
+				a2, v2, err2 := promeval.Instant(lfBuild(nil, ""), e.text, lfT0)
+				if err1 == nil && err2 == nil && lfResultKey(a1, v1) != lfResultKey(a2, v2) {
+					r.Violate(hx.Violation{Class: "or-on-rhs-declared-unused-but-used", Input: cs, Observed: map[string]any{"with": lfResultKey(a1, v1), "left_alone": lfResultKey(a2, v2)},
+						Expected: "the right side of `or on()` contributes nothing when pint says so"})
+				}
+			}
+		}
+	}
 	if !e.closed {
 		return
 	}
